@@ -282,4 +282,78 @@ example :
     Impl.run none (evs ++ [.didClose, .watchedDeleted, .watchedChanged (some ['y']), .didOpen 7 ['z']]) =
       some { text := ['z'], version := 7, isOpen := true, analysed := ['z'] } := by decide
 
+/-- **Token sessions: whatever the editor drops, what it ends up holding is current (clause "every
+position-carrying answer (… tokens …) refers to the editor's text", for the
+`semanticTokens/full` + `full/delta` protocol as a whole).**  For every session — full and delta
+requests in any order, the token array of the document arbitrary at each request (the text
+changes in between), every answer either consumed or DROPPED by the editor (a request cancelled by
+the next key stroke, the request of another view: the server has cached the result all the same),
+the server forgetting the entry (`remove_document`, `rename_document`), requests for other
+documents moving the id counter — after every answer the editor consumes it holds exactly the
+token array of the document at that request.  Rests on the server answering edits only when the
+cached result id IS the id the request names (`Impl.tokDelta`; ids come from a counter, so an id
+names one answer): `c14_token_delta_needs_same_base` shows edits against any other base are
+wrong.  Induction over the session, no bound. -/
+theorem c14_token_session {α : Type} [DecidableEq α] (evs : List (TokEv α)) (cur : List α)
+    (e : TokEv α) (he : e = .full cur true ∨ e = .delta cur true) (st' : TokState α)
+    (h : tokRun tokInit (evs ++ [e]) = some st') : ∃ id, st'.held = some (id, cur) := by
+  obtain ⟨st1, h1, h2⟩ := tokRun_append evs [e] tokInit st' h
+  have hinv := tokRun_inv evs tokInit st1 tokInv_init h1
+  simp only [tokRun] at h2
+  cases hs : tokStep st1 e with
+  | none => simp [hs] at h2
+  | some st2 =>
+    simp only [hs, Option.some.injEq] at h2
+    subst h2
+    exact tokStep_consumed st1 st2 cur e he hinv hs
+
+/-- Edits computed against the server's NEWEST result are wrong for an editor that holds an older
+one (it dropped the answer in between): the id comparison of `semantic_tokens_full_delta` is what
+`c14_token_session` rests on. -/
+theorem c14_token_delta_needs_same_base :
+    Spec.applyTokEdits [1, 2] (Impl.deltaEdits [1, 3] [1, 3, 4]) ≠ [1, 3, 4] := by decide
+
+/-- **The analysed text of a URI is the text of that URI's document — as long as no two URIs in
+use share a source key (guarded form; known finding C14-uri-scheme-shares-path-key).**  The
+project stores sources under `source_key_for_uri(uri)`, the documents are stored under the URI.
+If the key function is injective, then after every workspace history whatsoever the database
+entry of each URI's key is exactly the `analysed` field the per-URI model (`Impl.wstep`, the
+model of `c14_workspace_history`) carries for that URI, and the documents are those of the per-URI
+model — so `c14_workspace_history` speaks about what the analysis really reads. -/
+theorem c14_keyed_analysed_partial (key : Nat → Nat) (hk : ∀ a b, key a = key b → a = b)
+    (evs : List Impl.WEvent) :
+    (Impl.krun key Impl.kInit evs).docs = Impl.wrun (fun _ => none) evs ∧
+    ∀ u, (Impl.krun key Impl.kInit evs).db (key u) =
+      ((Impl.krun key Impl.kInit evs).docs u).map (·.analysed) :=
+  ⟨krun_docs key evs Impl.kInit, krun_inv key hk evs Impl.kInit (fun _ => rfl)⟩
+
+/-- **The guard is necessary (known finding C14-uri-scheme-shares-path-key).**  `uri_to_path`
+ignores the scheme, the query and the fragment, so `file:///w/main.st` (URI 0) and
+`git:/w/main.st?ref=HEAD` (URI 1) have the same key: after both are opened, each document holds
+its own text but the analysis reads the second text for both — every answer about URI 0 is
+computed from a text the editor does not hold for it. -/
+theorem c14_counterexample_shared_key :
+    let st := Impl.krun (fun _ => 0) Impl.kInit
+      [.doc 0 (.didOpen 1 ['a']), .doc 1 (.didOpen 1 ['b'])]
+    (st.docs 0).map (·.text) = some ['a'] ∧ (st.docs 1).map (·.text) = some ['b'] ∧
+    st.db 0 = some ['b'] := by decide
+
+/-- Non-vacuity of `c14_token_session`: the editor takes a full answer, drops a delta answer (the
+server's newest result is now one the editor never saw), asks again naming the OLD id while the
+tokens have changed again — the server answers the full array and the editor holds the current
+tokens. -/
+example :
+    let evs : List (TokEv Nat) := [.full [1, 2] true, .delta [1, 3] false, .delta [1, 3, 4] true]
+    (tokRun tokInit evs).map (·.held) = some (some (2, [1, 3, 4])) ∧
+    (Impl.tokDelta (α := Nat) { nextId := 2, cache := some (1, [1, 3]) } 0 [1, 3, 4]).2 =
+      .full 2 [1, 3, 4] ∧
+    (Impl.tokDelta (α := Nat) { nextId := 1, cache := some (0, [1, 2]) } 0 [1, 3]).2 =
+      .delta 1 [{ start := 1, deleteCount := 1, data := [3] }] := by decide
+
+/-- Non-vacuity of `c14_keyed_analysed_partial`: with private keys the same two documents are
+analysed from their own texts. -/
+example :
+    let st := Impl.krun id Impl.kInit [.doc 0 (.didOpen 1 ['a']), .doc 1 (.didOpen 1 ['b'])]
+    st.db 0 = some ['a'] ∧ st.db 1 = some ['b'] := by decide
+
 end TrustVerif.C14
